@@ -45,7 +45,8 @@ partial def forestOfJson : List Json → Forest
     .cons d.name d.files d.children (forestOfJson r)
 end
 
-def cfgOfJson (j : Json) : Cfg := { sourceless := getBoolD j "sourceless", recursive := getBoolD j "recursive" }
+def cfgOfJson (j : Json) : Cfg :=
+  { sourceless := getBoolD j "sourceless", recursive := getBoolD j "recursive", initDot := getBoolD j "initDot" }
 
 /-- `null` entries = configured locations that do not exist (`os.path.exists(vers)` false) -/
 def locsOfJson (j : Json) : List Dir :=
@@ -99,7 +100,7 @@ def handle (op : String) (j : Json) : Option Json :=
       | some (some l) => obj [("locations", names l)])
   | "files.match" =>
     let n := nm (getStrD j "name")
-    let m := match matchRevFile (getBoolD j "sourceless") n with
+    let m := match matchRevFile (getBoolD j "initDot") (getBoolD j "sourceless") n with
       | none => Json.null
       | some (g, k) => Json.arr #[str g, Json.str (kindStr k)]
     some (obj [("match", m),
